@@ -224,7 +224,8 @@ pub fn j_ctor(k: usize, x: f64, out: &mut Local) {
             // version also allowed the rounding of `value - anchor` in f64, on the belief that no double implementation
             // could avoid it; splitting the input into whole days and a fraction avoids it: DESIGN.md §9.)
             let u = crate::oracle::ulp::ulp_of(x.abs().max(one_second));
-            let tol = ULPS as f64 * u + 2.0 / unit_ns as f64;
+            // + 1 ns: the constructors convert a float count of a unit, which C18 defines as truncated to the nanosecond
+            let tol = ULPS as f64 * u + 1.0 / unit_ns as f64;
             let diff = (back - x).abs();
             if diff <= tol {
                 out.ok(2, x < 0.0 || x.fract() != 0.0, k as u64 * 4 + (x < 0.0) as u64 + 2 * (x.fract() != 0.0) as u64);
